@@ -284,7 +284,7 @@ def replay(ob, label, w):
         script.add('...meta', 'write_meta', {'path': 'f'}).add('...diff', 'write_diff', w['content'], **w['kw'])
     elif kind == 'history':
         script = Script(w['main_encoding'])
-        sids = {'new_change': '.change', 'new_file': '..file', 'write_preamble': '..preamble', 'write_meta': '...meta'}
+        sids = {'new_change': '.change', 'new_file': '..file', 'write_preamble': '..preamble', 'write_meta': '...meta', 'write_diff': '...diff'}
         for fn, a, k in w['calls']:
             script.add(sids[fn], fn, *a, **k)
     else:
